@@ -3,6 +3,6 @@
 cd /verif
 for x in "$@"; do
   src=${x%%:*}; dst=${x##*:}; prop=${src%%_*}
-  if [ ! -d seeded/$dst ]; then python3 tools/seed_confirm.py $prop /tmp/sa/out/$src $dst 2>&1 | tail -1; fi
+  if [ ! -d seeded/$dst ]; then python3 tools/seed_confirm.py $prop ${SEED_OUT:-/tmp/sa/out}/$src $dst 2>&1 | tail -1; fi
   if [ -d seeded/$dst ]; then python3 tools/seed_run.py $dst quick 2>&1 | grep -v "^WARNING" | tail -1; fi
 done
